@@ -176,6 +176,70 @@ def backend_results(text, rows):
     return res
 
 
+class PinVariant(Style):
+    """Exactly ONE whitespace position (required or optional) gets the given run; all the
+    others keep their default."""
+    def __init__(self, at, run):
+        self.at, self.run, self.positions = at, run, 0
+
+    def _here(self):
+        self.positions += 1
+        return self.positions - 1 == self.at
+
+    def req(self):
+        here = self._here()
+        return self.run if here and self.run else " "       # required whitespace is never removed
+
+    def opt(self, default=""):
+        return self.run if self._here() else default
+
+    def kw(self, word):
+        return word
+
+    def lit(self, kind, text):
+        return text
+
+
+GRID_FILTERS = [
+    "-a add b eq 7", "- a mul b lt c", "-(a add b) sub c eq 1", "not a and b", "not (a or b) and c", "not a eq b",
+    "a add b mul c eq d", "a eq 1 and b ne 2 or c gt 3", "a in (1, 2, 3) and b", "not a in (1, 2)", "-a in (1, 2) or b",
+    "contains(s, 'x') and startswith(t, 'y')", "my.f(a, b, k=1) eq 2", "xs/any(x: x/a eq 1 and x/b gt 2)", "xs/all(x: not x/a) or c",
+    "xs/any() and a", "a/b/c eq d/e", "(a add b) mul (c sub d) eq 0", "a eq -1 and b eq - 2", "x eq 2020-01-01T00:00:00Z and y eq duration'P1D'",
+    "length(s) add 1 eq indexof(t, 'q')", "a eq null or null ne b", "(a, b) eq c", "a div -b gt 0", "-a eq -b",
+]
+
+
+def judge_ws_grid(ctx):
+    """Every whitespace position (required and optional) of 25 filters that together use every
+    place the grammar has one - after unary minus and not, around operators, brackets, commas,
+    colons - x every whitespace run of the pool, ONE position at a time: the tree never changes."""
+    j = 0
+    for text in GRID_FILTERS:
+        o = drive.parse_term(text)
+        if o[0] != "ok":
+            ctx.count("base_rejected")
+            continue
+        t, want = o[1], norm_term(o[1])
+        probe = PinVariant(-1, "")
+        to_text(t, style=probe)
+        for at in range(probe.positions):
+            for run in WS + [""]:
+                j += 1
+                if not ctx.mine(j):
+                    continue
+                v = to_text(t, style=PinVariant(at, run))
+                ctx.count("evaluations")
+                ctx.count("ws_grid_cells")
+                ctx.cls("ws-grid")
+                o2 = drive.parse_term(v)
+                if o2[0] == "ok" and norm_term(o2[1]) == want:
+                    continue
+                ctx.fail({"filter": text, "variant": v, "mode": "ws-grid", "position": at, "run": repr(run)},
+                         "variant spelling parses differently" if o2[0] == "ok" else "variant spelling is rejected",
+                         expected=want, observed=o2 if o2[0] != "ok" else norm_term(o2[1]),
+                         keys=findings.parse_triggers(t, v), cls="ws-grid", sig=["ws-grid", o2[0], text[:12]])
+
+
 def judge_parse(ctx, t, rng, cls):
     base = to_text(t)
     o = drive.parse_term(base)
@@ -260,6 +324,7 @@ def run(ctx):
     sqla_env.engine()
     rng = ctx.rng("c19")
     o = fullgen.Opts()
+    judge_ws_grid(ctx)
     for i in range(ctx.pick(1500, 40000)):
         if ctx.out_of_time():
             break
